@@ -30,8 +30,14 @@ def run(ck):
     ck.distinct += sys_scn
     if ex:
         ck.samples = [l for l in ex if l.startswith("direct ")][:3] + ck.samples[:4]
-    ck.rule += ("; plus whole-broker scenarios (Engine + MemoryBackend over TCP loopback): rounds of 2..8 simultaneous CONNECTs with the id of a "
-                "live persistent session (old connection idle / mid-handshake / under traffic / dying), clean and unclean mixed: exactly_one, "
-                "will_once, not_stalled, lifecycle, shutdown; session handover (session-present, every queued/in-flight message exactly once, "
-                "retransmissions flagged dup); staggered contenders with gated Terminate; takeover landing between Dequeue and SavePacket; "
-                "the open known finding (old connection blocked in a carrier write) is replayed")
+    ck.rule += ("; plus whole-broker scenarios (Engine + MemoryBackend over TCP loopback, go/cmd/system c13): rounds of 2,3,..,8 simultaneous CONNECTs "
+                "with the id of a live persistent session (old connection idle / inbound QoS 2 exchange open / under traffic / dying at that moment), "
+                "clean and unclean mixed: exactly_one, survivor_serves (ping, new subscription served), will_once, not_stalled, lifecycle, shutdown, "
+                "goroutines; gated interleavings: four staggered contenders with held-back Terminate, newcomer arriving while the displaced / the "
+                "self-dying connection's cleanup is held in Terminate or in the will's publication (connack_after_terminate, connack_after_will, "
+                "will_before_takeover), a contender whose own peer hangs up while it waits inside Setup, takeover between Dequeue and SavePacket; "
+                "session handover for windows 1 and 3 with queued messages, in-flight PUBLISHes, an in-flight PUBREL, an open inbound QoS 2 exchange, "
+                "two subscriptions of differing QoS (handover_sp/_messages/_pubrel/_dup/_ids/_resend_order/_incoming_qos2/_subscriptions), clean takeover "
+                "discards, a chain of five takeovers under traffic (takeover_nothing_lost), a retained QoS 1 will towards an offline subscriber; "
+                "on every scenario's backend log: log_unique, log_will, log_lifecycle; the open known finding is replayed twice (old connection "
+                "blocked in a carrier write; kill timeout reached with a held-back Terminate, then two further CONNECTs)")
